@@ -163,6 +163,8 @@ def compare_with_source(chk, label, dump, lines, scope):
                 checks.append(('offsetMinutes', e['offsetMinutes'], want_off))
             if w['rules'][0] == 'fixed' and w['rules'][1] % 900 == 0:
                 checks.append(('deltaMinutes', e['deltaMinutes'], w['rules'][1] // 60))
+            if w['until'] is not None:
+                checks.append(('untilYear', e['untilYear'], w['until']['y']))
             if w['until'] is not None and w['until']['at'] % 60 == 0 and scope == 'extended':
                 checks.append(('untilMinutes', e['untilMinutes'], w['until']['at'] // 60))
                 checks.append(('untilSuffix', e['untilSuffix'], w['until']['suf']))
@@ -230,14 +232,17 @@ def run(tier):
     progs = 0
     entries = 0
     # (b) synthetic product source and (c) the source recorded in the shipped tables, through the real generator, compiled, read back
-    for name, lines in (('synthetic', synthetic_source()), ('synthetic-basic', synthetic_basic()), ('shipped-zonedbx', compiler.lines_shipped('zonedbx')), ('shipped-zonedb', compiler.lines_shipped('zonedb'))):
+    # (the synthetic source is also compiled for a year range that does not start in 2000: nothing in an encoding may depend
+    #  on the range)
+    for name, lines in (('synthetic', synthetic_source()), ('synthetic@1990', synthetic_source()), ('synthetic-basic', synthetic_basic()), ('shipped-zonedbx', compiler.lines_shipped('zonedbx')), ('shipped-zonedb', compiler.lines_shipped('zonedb'))):
         w = os.path.join(work, name)
         os.makedirs(w, exist_ok=True)
         res = {}
         outs = {}
         bad = False
+        y0, y1 = (1990, 2040) if name.endswith('@1990') else (2000, 2050)
         for scope in ('basic', 'extended'):
-            rr, o, err = compiler.run_compiler(lines, w, scope, flags=('arduino', 'inmem'))
+            rr, o, err = compiler.run_compiler(lines, w, scope, start=y0, until=y1, flags=('arduino', 'inmem'))
             if rr is None:
                 chk.violation('%s:%s:compiler' % (name, scope), 'the compiler failed: %s' % (err,), {})
                 bad = True
@@ -245,7 +250,12 @@ def run(tier):
             res[scope], outs[scope] = rr, o
         if bad:
             continue
-        dumps, err = dump_generated(w, outs['basic'], outs['extended'], name)
+        if name.startswith('synthetic') and not name.endswith('-basic'):
+            # every value of the synthetic source is inside the documented ranges of the extended tables: nothing may be refused
+            rz = res['extended']['removed_zones']
+            for zname in sorted(set(res['extended']['input_zones']) - set(res['extended']['emitted_zones']))[:10]:
+                chk.violation('%s:extended:admissible-value-refused' % name, 'zone %s of the synthetic source (all values inside the documented ranges) is not emitted in extended scope: %s' % (zname, rz.get(zname)), {'zone': zname, 'reason': rz.get(zname)})
+        dumps, err = dump_generated(w, outs['basic'], outs['extended'], name.replace('@', '-'))
         if dumps is None:
             chk.violation('%s:generated-tables-do-not-build' % name, 'generated C++ tables do not compile / dump: %s' % err[-1200:], {'source': name})
             continue
